@@ -532,6 +532,8 @@ func c21Extra(r *Run) error {
 	cp := modInternal + "caches"
 	r.census("C21/token-cache-fill-census", cp+".Add", 0, "TokenCache", "(*"+rt+".Session).Authenticate")
 	r.census("C21/revocation-cache-fill-census", cp+".Add", 0, "BlacklistCache", tk+".IsBlacklisted", tk+".IsIDBlacklisted")
+	r.census("C21/token-cache-lookup-census", cp+".Find", 0, "TokenCache", "(*"+rt+".Session).Authenticate")
+	r.census("C21/revocation-cache-lookup-census", cp+".Find", 0, "BlacklistCache", tk+".IsBlacklisted", tk+".IsIDBlacklisted")
 	r.writersUnderContract("C21/revocation-row-active-writers", r.structField(tk, "BlackListItem", "Active"))
 	r.writersUnderContract("C21/token-id-writers", r.structField(tk, "Token", "TokenID"))
 	r.writersUnderContract("C21/token-expires-writers", r.structField(tk, "Token", "Expires"))
